@@ -29,6 +29,7 @@ def rhombicPlanarCodeQuery (Lx Ly Lz : Nat) : List String → Option String
   | "deform" :: c :: name =>
     some (match RhombicPlanarCode.getDeformation (" ".intercalate name) (parseCoord c) with
       | none => "ERR value" | some m => Lat3Db.showPauliMap m)
+  | ["rankfamily"] => some (rhombicPlanarCodeShowCoords (RhombicPlanarCode.selStabs Lx Ly Lz))
   | ["n"] => some (toString (RhombicPlanarCode.lattice Lx Ly Lz).toCodeData.n)
   | ["k"] => some (toString (RhombicPlanarCode.lattice Lx Ly Lz).toCodeData.k)
   | _ => none
